@@ -14,6 +14,10 @@ if [ -f t38x/go.mod ]; then
   (cd t38x && go build -o ../.work/bin/t38x .)
   ./.work/bin/t38x -repo /repo -out coq/Gen
 fi
+if [ -d harness/cmd/tmplx ]; then
+  cp /repo/go.sum harness/go.sum
+  (cd harness && go build -tags verif -o ../.work/bin/tmplx ./cmd/tmplx && ../.work/bin/tmplx -repo /repo -out ../coq/Gen) || echo "setup: tmplx failed"
+fi
 # full Coq build (.vo, never -vos)
 (cd coq && coq_makefile -f _CoqProject -o Makefile >/dev/null && (timeout 3000 make -k -j16 || echo 'setup: some Coq file does not compile; the affected property checks will report it'))
 # extraction + OCaml driver
